@@ -410,7 +410,17 @@ func (store *KeyStore) WriteKeyFile(filename string, data []byte, mode os.FileMo
 	if err != nil {
 		return err
 	}
+	// The set of files holding versions of this key has changed (new backup, or a current file
+	// where there was none): drop the cached list, otherwise a warm handle keeps using the old one
+	// and stops offering the key that has just been rotated.
+	store.invalidateCachedHistoricalFilenames(filename)
 	return nil
+}
+
+// invalidateCachedHistoricalFilenames marks cached list of historical files of the key file as stale.
+// Cache has no removal operation, so an empty value is stored and treated as a cache miss.
+func (store *KeyStore) invalidateCachedHistoricalFilenames(path string) {
+	store.cache.Add(cacheKeyPrefix+filepath.Clean(path), nil)
 }
 
 func (store *KeyStore) backupHistoricalKeyFile(filename string) error {
@@ -451,7 +461,7 @@ var errCacheMissHistoricalFilenames = errors.New("cache doesn't contain historic
 func (store *KeyStore) getCachedHistoricalPrivateKeyFilenames(id string) ([]string, error) {
 	key := cacheKeyPrefix + id
 	value, ok := store.cache.Get(key)
-	if !ok {
+	if !ok || len(value) == 0 {
 		return nil, errCacheMissHistoricalFilenames
 	}
 	paths := &fs.HistoricalPaths{}
@@ -1003,6 +1013,7 @@ func (store *KeyStore) destroyKeyWithFilename(filename string) error {
 	// Purge private key data from cache too.
 	store.cache.Add(filename, nil)
 	store.cache.Add(filename+".pub", nil)
+	store.invalidateCachedHistoricalFilenames(store.GetPrivateKeyFilePath(filename))
 
 	// Remove key files. It's okay if they are already removed (or never existed).
 	// Keystore v1 does not differentiate between 'destroying' and 'removing' keys
@@ -1021,8 +1032,10 @@ func (store *KeyStore) destroyKeyWithFilename(filename string) error {
 
 // destroySymmetricKeyWithFilename removes symmetric key with given filename.
 func (store *KeyStore) destroySymmetricKeyWithFilename(filename string) error {
-	// Purge key data from cache too.
-	store.cache.Add(filename, nil)
+	// Purge key data from cache too. Symmetric key is cached under its own name,
+	// "filename" is the name of the key pair of the same owner and its cached private key must stay.
+	store.cache.Add(getSymmetricKeyName(filename), nil)
+	store.invalidateCachedHistoricalFilenames(store.GetPrivateKeyFilePath(getSymmetricKeyName(filename)))
 
 	// Remove key files. It's okay if they are already removed (or never existed).
 	// Keystore v1 does not differentiate between 'destroying' and 'removing' keys
@@ -1155,7 +1168,8 @@ func (store *KeyStore) generateAndSaveSymmetricKey(filename string, keyContext k
 // GetSymmetricKey return symmetric key with specific identifier
 func (store *KeyStore) readEncryptedKey(filename string, keyContext keystore.KeyContext) ([]byte, error) {
 	encryptedSymKey, ok := store.Get(filename)
-	if !ok {
+	// empty value is the mark left in the cache by key destruction: (re)load the key file
+	if !ok || len(encryptedSymKey) == 0 {
 		return store.loadKeyAndCache(filename, keyContext, func() ([]byte, error) {
 			return store.ReadKeyFile(store.GetPrivateKeyFilePath(filename))
 		})
